@@ -16,7 +16,7 @@ def main():
     sd = os.path.join(ROOT, 'seeded')
     res = json.load(open(os.path.join(sd, 'RESULTS.json')))
     rows = []
-    caught = missed = obsolete = 0
+    caught = missed = obsolete = outside = 0
     for n in sorted(x for x in os.listdir(sd) if os.path.isdir(os.path.join(sd, x))):
         meta = json.load(open(os.path.join(sd, n, 'meta.json')))
         pid = meta['property']
@@ -31,14 +31,18 @@ def main():
             continue
         if own['verdict'] == 'CAUGHT':
             caught += 1
+        elif meta.get('note'):
+            outside += 1
         else:
             missed += 1
         others = sorted(p for p, v in r.items() if p != pid and v['verdict'] == 'CAUGHT')
         rows.append((n, cell(meta.get('summary'), 150),
                      ('%s quick: ' % pid) + (', '.join('`%s`' % s for s in own['signatures'][:3]) if own['verdict'] == 'CAUGHT'
+                                             else ('quiet by design: ' + cell(meta['note'], 160)) if meta.get('note')
                                              else '**' + own['verdict'] + '**'), ', '.join(others)))
-    out = [B, '', '%d stored changes: %d caught by the check of their own property in the quick tier, %d missed, %d obsolete '
-           '(indistinguishable from the repaired tree).' % (len(rows), caught, missed, obsolete), '',
+    out = [B, '', '%d stored changes: %d caught by the check of their own property in the quick tier, %d missed, %d not a violation of '
+           'the property they were filed under (caught by the check of the property they do violate), %d obsolete '
+           '(indistinguishable from the repaired tree).' % (len(rows), caught, missed, outside, obsolete), '',
            '| change | what it does (sub-agent\'s summary) | own check | also caught by |', '|---|---|---|---|']
     out += ['| %s | %s | %s | %s |' % r for r in rows]
     out += ['', E]
@@ -49,7 +53,7 @@ def main():
     else:
         s = s.replace('SEEDED_TABLE_PLACEHOLDER', '\n'.join(out))
     open(p, 'w').write(s)
-    print('%d rows, %d caught, %d missed, %d obsolete' % (len(rows), caught, missed, obsolete))
+    print('%d rows, %d caught, %d missed, %d outside, %d obsolete' % (len(rows), caught, missed, outside, obsolete))
 
 
 if __name__ == '__main__':
